@@ -6,7 +6,7 @@
 
 use std::{error::Error, fmt, str::FromStr};
 
-use onig::{Regex, RegexOptions, Syntax};
+use onig::{Regex, RegexOptions, Syntax, SyntaxOperator};
 
 use super::{Matcher, MatcherIO, WalkEntry};
 
@@ -97,15 +97,41 @@ impl RegexMatcher {
             RegexType::PosixExtended => Syntax::posix_extended(),
         };
 
-        let regex = Regex::with_options(
-            pattern,
-            if ignore_case {
-                RegexOptions::REGEX_OPTION_IGNORECASE
-            } else {
-                RegexOptions::REGEX_OPTION_NONE
-            },
-            syntax,
-        )?;
+        let options = if ignore_case {
+            RegexOptions::REGEX_OPTION_IGNORECASE
+        } else {
+            RegexOptions::REGEX_OPTION_NONE
+        };
+        // Compiled as given first, so that errors are reported for the user's
+        // own pattern.
+        Regex::with_options(pattern, options, syntax)?;
+
+        // The entire path has to be in the pattern's language. A backtracking
+        // matcher returns the first match it finds (for `a\|ab` on "ab" that
+        // is "a"), so the pattern is put in a group and closed with an end
+        // anchor, which makes the matcher go on to the alternatives that do
+        // reach the end of the path.
+        let (open, close) = if regex_type == RegexType::PosixExtended {
+            ("(", ")")
+        } else {
+            ("\\(", "\\)")
+        };
+        let has_back_reference = pattern
+            .as_bytes()
+            .windows(2)
+            .any(|w| w[0] == b'\\' && (b'1'..=b'9').contains(&w[1]));
+        let regex = if !has_back_reference {
+            Regex::with_options(&format!("{open}{pattern}{close}$"), options, syntax)?
+        } else if !pattern.contains(&format!("{open}?")) {
+            // An extra capturing group would renumber the back-references:
+            // use a group that does not capture (its "(?:" spelling is only
+            // switched on here, where the pattern has no "(?" of its own).
+            let mut shy_syntax = *syntax;
+            shy_syntax.enable_operators(SyntaxOperator::SYNTAX_OPERATOR_QMARK_GROUP_EFFECT);
+            Regex::with_options(&format!("{open}?:{pattern}{close}$"), options, &shy_syntax)?
+        } else {
+            Regex::with_options(pattern, options, syntax)?
+        };
         Ok(Self { regex })
     }
 }
